@@ -66,6 +66,8 @@ WHAT_SIZE0 = "C10 MP4: size-0 atom gets delta written as its size"
 WHAT_NONADJ = "C10 MP4: non-adjacent free atom taken as padding (ilst first in meta)"
 WHAT_MEDIA = "C10 MP4: chunk offset no longer addresses the same media bytes"
 WHAT_BEFORE = "C10 MP4: offset at or before the start of the tag region changed"
+WHAT_INSERT = "C10 MP4: offset equal to the insertion point of the new meta atom not moved with the data"
+WHAT_END = "C10 MP4: offset equal to the end of the replaced tag region not moved with the data"
 WHAT_SIZES = "C10 MP4: atom sizes inconsistent after save"
 WHAT_RAISE = "C10 MP4: save failed on a well-formed file"
 WHAT_LOAD = "C10 MP4: file no longer loads or reads back different tags after save"
@@ -188,7 +190,7 @@ def mdat_bytes(n, seed):
 def base_layout(**kw):
     l = dict(moov_first=True, udta=2, udta_first=False, udta_extra=-1, meta=[("h",), ("i",)], ilst=mk_ilst(5),
              traks=[(False, True, [0, 33, 100])], moofs=[], mdat_gen=(300, 3), big=0, topfree=0, size0=False,
-             mdat2_gen=None, m2_entries=None, m2_moofs=None)
+             mdat2_gen=None, m2_entries=None, m2_moofs=None, moof_self=None, entry_at_first_moof=False)
     l.update(kw)
     l["mdat"] = mdat_bytes(*l["mdat_gen"])
     l["mdat2"] = mdat_bytes(*l["mdat2_gen"]) if l["mdat2_gen"] else b""
@@ -240,6 +242,40 @@ def straddle_layouts():
                 m2_entries={0: ([5, 64, 219], first), 1: ([0, 120], not first)},
                 moofs=[(0x020001, 20, 0)] if n % 3 == 0 else [], m2_moofs=[(1, 50, 0), (0x020001, 99, 2)] if n % 3 == 0 else None,
                 big=[0, 8, 1][n % 3], topfree=n % 2)))
+    return out
+
+
+def insert_layouts():
+    """no ilst yet; moov ends with an EMPTY udta (or a udta holding only a non-meta child, or there is no udta) and moof atoms
+    follow directly: a tfhd base offset equal to the start of its moof (the usual value) then equals the insertion point of
+    the new meta atom (moov_self: which moofs get base == their own start); also a chunk offset equal to that point"""
+    out = []
+    n = 0
+    for udta, extra in ((1, -1), (1, 9), (0, -1), (2, -1)):
+        for big in (0, 2, 128):
+            n += 1
+            out.append(("insert-%d" % n, base_layout(
+                moov_first=True, udta=udta, udta_extra=extra, udta_first=False, meta=[("h",)] if udta == 2 else [],
+                traks=[(n % 2 == 0, True, [0, 33])], moofs=[(1, 0, 0), (0x020001, 0, 4), (1, 40, 0)], moof_self=[0, 1],
+                entry_at_first_moof=(n % 3 == 0), big=big)))
+    return out
+
+
+def tail_layouts():
+    """EXISTING tags that are the last thing in moov (ilst [+ free] last in meta, meta last in udta, udta last in moov) and moof
+    atoms directly behind moov: a tfhd base offset equal to the start of its moof (moof_self) then equals the END of the replaced
+    region, the first byte behind it; it moves whenever the region changes its size (the save sequences grow and shrink it).
+    Also a chunk offset equal to that point."""
+    out = []
+    metas = [[("h",), ("i",)], [("h",), ("i",), ("f", 40)], [("h",), ("f", 64), ("i",)], [("i",)], [("h",), ("o", 12), ("i",), ("f", 300)]]
+    n = 0
+    for meta in metas:
+        for big in (0, 128):
+            n += 1
+            out.append(("tail-%d" % n, base_layout(
+                moov_first=True, udta=2, udta_extra=-1, udta_first=False, meta=meta, ilst=mk_ilst(3 + n),
+                traks=[(n % 2 == 0, True, [0, 33])], moofs=[(1, 0, 0), (0x020001, 0, 4), (1, 40, 0)], moof_self=[0, 1],
+                entry_at_first_moof=(n % 3 != 1), big=big)))
     return out
 
 
@@ -338,6 +374,13 @@ def with_boundary_entries(l):
                 es = es + extra
             tr.append((c, s, es))
         mf = list(base_mf)
+        tops = [a for a in W.mp4_atoms(d) if a["name"] == b"moof"]
+        for j in (l.get("moof_self") or []):
+            if j < len(tops) and j < len(mf):
+                mf[j] = (mf[j][0], tops[j]["off"] - base, mf[j][2])
+        if l.get("entry_at_first_moof") and tops and tr:
+            c0, s0, es0 = tr[0]
+            tr[0] = (c0, s0, es0 + [tops[0]["off"] - base])
         if p2 is not None:
             mf += [(fl, p2 + k - base, t) for fl, k, t in m2m]
         if base_mf and reg is not None:
@@ -366,7 +409,8 @@ def jlayout(l):
     d = dict(l)
     d["ilst"] = l["ilst"].hex()
     del d["mdat"]
-    d.pop("mdat2", None); d.pop("m2_entries", None); d.pop("m2_moofs", None)      # already resolved into traks / moofs
+    for key in ("mdat2", "m2_entries", "m2_moofs", "moof_self", "entry_at_first_moof"):      # already resolved into traks / moofs
+        d.pop(key, None)
     d["mdat_gen"] = list(l["mdat_gen"])
     d["mdat2_gen"] = list(l["mdat2_gen"]) if l.get("mdat2_gen") else None
     d["meta"] = [list(m) for m in l["meta"]]
@@ -481,7 +525,7 @@ def oracle_step(ctx, info, before, after, exc, expect_tags):
             if k == b"tfhd" and first_moof is not None:
                 ta = top_atom_at(atoms0, at0)
                 later_moof = ta is not None and ta["off"] != first_moof
-            if o0 <= off:
+            if o0 < off or (o0 == off and old > 0):
                 ctx.count("oracle:entry-before-region")
                 if o1 != o0:
                     ok = v(WHAT_BEFORE, "before-region", entry=[k.decode(), at0, i, o0, o1], region=[off, old], delta=delta)
@@ -492,7 +536,15 @@ def oracle_step(ctx, info, before, after, exc, expect_tags):
                 if ta is not None and ta["name"] not in (b"moov", b"moof"):
                     n = ta["off"] + ta["size"] - o0
                 if o1 != o0 + delta or before[o0:o0 + n] != after[o1:o1 + n]:
-                    if later_moof:
+                    if old == 0 and o0 == off:
+                        ok = v(WHAT_INSERT, "insertion-point", entry=[k.decode(), at0, i, o0, o1], region=[off, old], delta=delta,
+                               expected=o0 + delta, addressed_before=before[o0 + 4:o0 + 8].decode("latin-1"),
+                               addressed_after=after[o1 + 4:o1 + 8].decode("latin-1"))
+                    elif old > 0 and o0 == off + old:
+                        ok = v(WHAT_END, "region-end", entry=[k.decode(), at0, i, o0, o1], region=[off, old], delta=delta,
+                               expected=o0 + delta, addressed_before=before[o0 + 4:o0 + 8].decode("latin-1"),
+                               addressed_after=after[o1 + 4:o1 + 8].decode("latin-1"))
+                    elif later_moof:
                         ok = v(WHAT_MOOF, "second-moof-tfhd", entry=[k.decode(), at0, i, o0, o1], region=[off, old], delta=delta)
                     else:
                         ok = v(WHAT_MEDIA, "media", entry=[k.decode(), at0, i, o0, o1], region=[off, old], delta=delta,
@@ -656,7 +708,7 @@ def usable(d):
 
 
 def all_layouts(ctx, nrandom):
-    ls = regression_layouts() + flag_layouts() + straddle_layouts() + long_layouts() + core_layouts() + [random_layout(ctx.rng, i) for i in range(nrandom)]
+    ls = regression_layouts() + flag_layouts() + straddle_layouts() + insert_layouts() + tail_layouts() + long_layouts() + core_layouts() + [random_layout(ctx.rng, i) for i in range(nrandom)]
     return [(n, with_boundary_entries(l)) for n, l in ls]
 
 
